@@ -123,15 +123,16 @@ type result struct {
 func newResult() *result { return &result{Outcomes: map[string]int64{}, Viols: map[string]*violT{}} }
 
 type replayT struct {
-	Engine string   `json:"engine"`
-	P      []string `json:"params"`
-	R      []string `json:"results"`
-	Style  styleT   `json:"style"`
-	Dir    string   `json:"direction"`
-	K      int      `json:"rotation"`
-	Depth  int      `json:"depth"`
-	Layout string   `json:"layout,omitempty"`
-	Lis    int      `json:"listeners,omitempty"`
+	Engine string       `json:"engine"`
+	P      []string     `json:"params"`
+	R      []string     `json:"results"`
+	Style  styleT       `json:"style"`
+	Dir    string       `json:"direction"`
+	K      int          `json:"rotation"`
+	Depth  int          `json:"depth"`
+	Layout string       `json:"layout,omitempty"`
+	Lis    int          `json:"listeners,omitempty"`
+	Multi  *multiReplay `json:"multi,omitempty"`
 }
 
 type runner struct {
